@@ -5,3 +5,4 @@ import FlexiVerif.Model.Names
 import FlexiVerif.Model.FlwAbs
 import FlexiVerif.Model.Conc
 import FlexiVerif.Model.Fmt
+import FlexiVerif.Model.FlwTrace
